@@ -50,7 +50,12 @@ def rand_keys(rng, n=None):
     if n >= 2 and rng.random() < 0.5:  # force two keys with equal numel but (often) different shapes
         eq = [s for s in SHAPES if int(np.prod(s)) == int(np.prod(shapes[0]))]
         shapes[1] = eq[int(rng.integers(len(eq)))]
-    keys = [torch.tensor(rng.standard_normal(s), dtype=torch.float64, requires_grad=True) for s in shapes]
+    keys = []
+    for s in shapes:
+        k = torch.tensor(rng.standard_normal(s), dtype=torch.float64)
+        if k.ndim >= 2 and sum(1 for x in s if x > 1) >= 2 and rng.random() < 0.4:
+            k = k.transpose(0, -1).contiguous().transpose(0, -1)  # a key with a non-contiguous memory layout (transposed / channels_last parameter)
+        keys.append(k.requires_grad_())
     return keys, shapes
 
 
@@ -58,6 +63,7 @@ def key_witness(ctx, shapes):
     sizes = [int(np.prod(s)) for s in shapes]
     eq = len(sizes) != len(set(sizes))
     mixed = any(len(s) == 0 for s in shapes) and any(len(s) > 0 for s in shapes)
+    ctx.count("w_keys_drawn")
     if eq:
         ctx.count("w_equal_sized_keys")
     if mixed:
